@@ -141,7 +141,7 @@ func (vm *VM) convertPanic(msg any) error {
 			}
 		}
 	case OpAppendSlice:
-		if err, ok := msg.(string); ok && err == "reflect.Append: slice overflow" {
+		if err, ok := msg.(string); ok && (err == "reflect.Append: slice overflow" || strings.HasPrefix(err, "reflect.Value.Grow: slice overflow")) {
 			return vm.newPanic(runtimeError("append: out of memory"))
 		}
 	case OpCallIndirect:
@@ -197,9 +197,18 @@ func (vm *VM) convertPanic(msg any) error {
 			return err
 		}
 	case OpIf, -OpIf:
-		if err, ok := msg.(runtime.Error); ok {
-			if s := err.Error(); strings.HasPrefix(s, "runtime error: comparing uncomparable type ") {
+		switch err := msg.(type) {
+		case runtime.Error:
+			// A 'contains' condition with a map looks up a key.
+			if s := err.Error(); strings.HasPrefix(s, "runtime error: comparing uncomparable type ") ||
+				strings.HasPrefix(s, "hash of unhashable type: ") ||
+				strings.HasPrefix(s, "runtime error: hash of unhashable type ") {
 				return vm.newPanic(runtimeError(s))
+			}
+		case string:
+			// Raised by vm.equals for types declared by the program.
+			if strings.HasPrefix(err, "runtime error: comparing uncomparable type ") {
+				return vm.newPanic(runtimeError(err))
 			}
 		}
 	case OpIndexString, -OpIndexString:
@@ -209,20 +218,38 @@ func (vm *VM) convertPanic(msg any) error {
 			}
 		}
 	case OpMakeChan, -OpMakeChan:
-		if err, ok := msg.(string); ok && err == "reflect.MakeChan: negative buffer size" {
-			return vm.newPanic(runtimeError("makechan: size out of range"))
+		switch err := msg.(type) {
+		case string:
+			if err == "reflect.MakeChan: negative buffer size" {
+				return vm.newPanic(runtimeError("makechan: size out of range"))
+			}
+		case runtime.Error:
+			if s := err.Error(); s == "makechan: size out of range" {
+				return vm.newPanic(runtimeError(s))
+			}
 		}
 	case OpMakeSlice:
-		if err, ok := msg.(string); ok {
+		switch err := msg.(type) {
+		case string:
 			switch err {
 			case "reflect.MakeSlice: negative len":
 				return vm.newPanic(runtimeError("runtime error: makeslice: len out of range"))
 			case "reflect.MakeSlice: negative cap", "reflect.MakeSlice: len > cap":
 				return vm.newPanic(runtimeError("runtime error: makeslice: cap out of range"))
 			}
+		case runtime.Error:
+			if err.Error() == "runtime: allocation size out of range" {
+				return vm.newPanic(runtimeError("runtime error: makeslice: len out of range"))
+			}
 		}
 	case OpPanic:
 		return vm.newPanic(msg)
+	case OpSelect:
+		if err, ok := msg.(runtime.Error); ok {
+			if s := err.Error(); s == "send on closed channel" {
+				return vm.newPanic(runtimeError(s))
+			}
+		}
 	case OpSend, -OpSend:
 		switch err := msg.(type) {
 		case runtime.Error:
